@@ -59,7 +59,7 @@ Edits ==
     \cup {[k |-> "AddEnum", name |-> NewE, base |-> b] : b \in {"string", "uinteger"}}
     \cup {[k |-> "AddEnumValue", target |-> e] : e \in {"MarkupKind", "SymbolKind", NewE}}
     \cup {[k |-> "AddRequest", typed |-> ty, params |-> p, result |-> r] :
-            ty \in BOOLEAN, p \in {"none", "ref"}, r \in {"ref", "orNull", "null"}}
+            ty \in BOOLEAN, p \in {"none", "ref"}, r \in {"ref", "orNull", "null", "enumArray"}}   \* enumArray: a closed enum reached through containers only
     \cup {[k |-> "AddNotification", typed |-> ty, params |-> p] : ty \in BOOLEAN, p \in {"none", "ref"}}
     \cup {[k |-> "Mark", on |-> w, mark |-> m] : w \in {"structure", "property", "enumValue", "request"}, m \in Marks}
     \cup {[k |-> "RemoveOptionalProperty", target |-> t] : t \in {"Hover", "CompletionItem", "Diagnostic"}}
@@ -105,6 +105,7 @@ QuickOK(e) ==
                /\ e.name = "verifProp" /\ e.ty = "orNull" /\ e.optional
       [] e.k = "AddRequest" -> (e.typed /\ e.params = "ref" /\ e.result = "orNull") \/ (~e.typed /\ e.params = "none" /\ e.result = "null")
                                \/ (e.typed /\ e.params = "none" /\ e.result = "ref")
+                               \/ (e.typed /\ e.params = "ref" /\ e.result = "enumArray")
       [] e.k = "AddNotification" -> (e.typed /\ e.params = "ref") \/ (~e.typed /\ e.params = "none")
       [] e.k = "Mark" -> (e.mark = "proposed" /\ e.on # "request") \/ (e.on = "structure" /\ e.mark = "since")
       [] e.k = "RemoveOptionalProperty" -> e.target # "Diagnostic"
